@@ -459,7 +459,11 @@ def _make_dict_structure_fn(
                 # For each attribute, we try resolving the type here and now.
                 # If a type is manually overwritten, this function should be
                 # regenerated.
-                handler = converter.get_structure_hook(t)
+                try:
+                    handler = converter.get_structure_hook(t)
+                except RecursionError:
+                    # There's a circular reference somewhere down the line
+                    handler = converter.structure
 
             kn = an if override.rename is None else override.rename
             allowed_fields.add(kn)
@@ -502,7 +506,11 @@ def _make_dict_structure_fn(
                     # For each attribute, we try resolving the type here and now.
                     # If a type is manually overwritten, this function should be
                     # regenerated.
-                    handler = converter.get_structure_hook(t)
+                    try:
+                        handler = converter.get_structure_hook(t)
+                    except RecursionError:
+                        # There's a circular reference somewhere down the line
+                        handler = converter.structure
 
                 struct_handler_name = f"__c_structure_{ix}"
                 internal_arg_parts[struct_handler_name] = handler
